@@ -561,7 +561,11 @@ func (x *exec) applyModifies(s *State, con *Contract, env *Env, args []*Val) {
 		}
 	}
 	// bump the ghost heap version so pure accessors are not assumed stable
-	if len(con.Modifies) > 0 {
+	if con.Claims["purestable"] {
+		// A-PURE-STABLE (stated per contract): what this function writes is not read by the pure accessors
+		// of other objects
+		x.note("A-PURE-STABLE: the locations %s writes are assumed disjoint from what pure accessors read", shortKey(con.Key))
+	} else if len(con.Modifies) > 0 {
 		s.heap["gv"] = x.c.FreshConst("gv", "Int")
 		x.h.sorts["gv"] = "Int"
 	}
